@@ -52,7 +52,22 @@ def _rename_str(x, m):
     return x
 
 
+_LIFETIME_RX = re.compile(r"'(?!static\b)(?!_\b)[A-Za-z_][A-Za-z0-9_]*\b(?!')")
+
+
+def _anonymise_lifetimes(doc):
+    """named lifetimes carry no behaviour: `impl<'a, Kem> OpModeR<'a, Kem>` and `impl<Kem> OpModeR<'_, Kem>` are one item"""
+    out = {}
+    for k in ('bodies', 'impls', 'adts', 'api', 'traits', 'consts', 'statics'):
+        if k in doc:
+            s = json.dumps(doc[k], separators=(',', ':'))
+            s2 = _LIFETIME_RX.sub("'_", s)
+            doc[k] = json.loads(s2) if s2 != s else doc[k]
+    return doc
+
+
 def canonicalize_generics(doc):
+    doc = _anonymise_lifetimes(doc)
     bodies = doc.get('bodies', [])
     by_key = {b['key']: b for b in bodies}
     keymap = {}
@@ -335,8 +350,11 @@ def transparent_helpers(doc):
         ms = psigs.get(mk)
         if ms is None:
             continue
-        cands = [b for b in new if _module_of(b['key']) == _module_of(mk) and json.dumps(b.get('sig'), sort_keys=True) == json.dumps(ms, sort_keys=True)
-                 and b['key'] not in keymap]
+        same_sig = [b for b in new if json.dumps(b.get('sig'), sort_keys=True) == json.dumps(ms, sort_keys=True) and b['key'] not in keymap]
+        cands = [b for b in same_sig if _module_of(b['key']) == _module_of(mk)]
+        if len(cands) != 1:
+            # moved to another module under the same name
+            cands = [b for b in same_sig if b['key'].rsplit('::', 1)[-1] == mk.rsplit('::', 1)[-1]]
         if len(cands) == 1:
             keymap[cands[0]['key']] = mk
     if keymap:
@@ -403,7 +421,8 @@ def transparent_helpers(doc):
         if k in failed:
             continue
         still = any(ck == k for b in bodies if b['key'] != k for _, ck in _calls_of(b))
-        if not still and k in info['inlined'] and not _mentions_fn_value(doc, k):
+        # inlined everywhere, or never called at all in this configuration (its only callers are cfg'd out): not a body of its own
+        if not still and not _mentions_fn_value(doc, k):
             gone.add(k)
     if gone:
         doc['bodies'] = [b for b in bodies if b['key'] not in gone]
@@ -868,7 +887,24 @@ def thread_known_discriminants(doc):
                     continue
                 xl = ds['rv']['place']['l']
                 last = P['stmts'][-1]
-                if last.get('k') != 'assign' or last['place'] != {'l': xl, 'p': []} or last['rv'].get('k') != 'aggregate' or last['rv'].get('agg') != 'adt':
+                if last.get('k') != 'assign' or last['place'] != {'l': xl, 'p': []}:
+                    continue
+                # x = move y with y built just before in this block (the return value of an inlined helper)
+                hops2 = 0
+                pos = len(P['stmts']) - 1
+                while last['rv'].get('k') == 'use' and last['rv']['op'].get('k') in ('move', 'copy') and not last['rv']['op']['place']['p'] and hops2 < 4:
+                    yl = last['rv']['op']['place']['l']
+                    prev = None
+                    for j in range(pos - 1, -1, -1):
+                        st = P['stmts'][j]
+                        if st.get('k') == 'assign' and st['place'].get('l') == yl:
+                            prev = (j, st) if not st['place']['p'] else None
+                            break
+                    if prev is None:
+                        break
+                    pos, last = prev
+                    hops2 += 1
+                if last['rv'].get('k') != 'aggregate' or last['rv'].get('agg') != 'adt':
                     continue
                 vidx = last['rv'].get('variant_idx')
                 tgt = None
@@ -969,4 +1005,56 @@ def expand_for_each(doc):
             inline_call(b, B, cb, doc)
             n += 1
     doc.setdefault('meta', {})['expanded_for_each'] = n
+    return doc
+
+
+
+# ======================================================================================================================
+# N5 private struct fields keep their pinned names: a struct of the pinned tree whose fields have the same types (each type
+#    once, or the same sequence of types) but other names had its private fields renamed — rules address fields by name.
+def pinned_field_names(doc):
+    pinned = pinned_keys()
+    crate = (doc.get('meta') or {}).get('crate', 'hpke')
+    padts = pinned.get(crate + ':adts') or {}
+    if not padts:
+        return doc
+    ren = {}
+    for a in doc.get('adts', []):
+        pf = padts.get(a['path'])
+        if pf is None or a.get('kind') != 'Struct' or len(a['variants']) != 1:
+            continue
+        cur = a['variants'][0]['fields']
+        if len(cur) != len(pf) or [f['name'] for f in cur] == [x[0] for x in pf]:
+            continue
+        m = {}
+        ctys = [f['ty'] for f in cur]
+        ptys = [x[1] for x in pf]
+        if ctys == ptys:
+            m = {f['name']: x[0] for f, x in zip(cur, pf)}
+        elif sorted(ctys) == sorted(ptys) and len(set(ctys)) == len(ctys):
+            byty = {x[1]: x[0] for x in pf}
+            m = {f['name']: byty[f['ty']] for f in cur}
+        # only private fields may be renamed silently (a public field is API)
+        pvis = {x[0]: x[2] for x in pf}
+        m = {c: p_ for c, p_ in m.items() if c != p_ and (pvis.get(p_) or '') != 'public'}
+        if m and len(set(m.values())) == len(m):
+            ren[a['path']] = m
+            for f in cur:
+                f['name'] = m.get(f['name'], f['name'])
+    if not ren:
+        return doc
+
+    def walk(x):
+        if isinstance(x, list):
+            for v in x:
+                walk(v)
+        elif isinstance(x, dict):
+            if 'f' in x and x.get('adt') in ren and x['f'] in ren[x['adt']]:
+                x['f'] = ren[x['adt']][x['f']]
+            if x.get('k') == 'aggregate' and x.get('agg') == 'adt' and x.get('adt') in ren and isinstance(x.get('field_names'), list):
+                x['field_names'] = [ren[x['adt']].get(n, n) for n in x['field_names']]
+            for v in x.values():
+                walk(v)
+    walk(doc['bodies'])
+    doc.setdefault('meta', {})['renamed_fields'] = ren
     return doc
